@@ -59,6 +59,7 @@ type PodSpec struct {
 	Name     string `json:"name"`
 	RDMA     bool   `json:"rdma,omitempty"`
 	Existing bool   `json:"existing,omitempty"` // exists at start and reports an address of a pre-attached interface
+	Partial  string `json:"partial,omitempty"`  // dual stack, existing pod: it reports (and is recorded with) this family only ("v4" | "v6")
 }
 
 type Config struct {
@@ -159,17 +160,20 @@ type World struct {
 	faultIdx  map[string]int
 	faultPlan map[string]string
 
-	pendingInstance map[string]string
-	pendingSince    map[string]int       // reconcile number in which the interface was created
-	cniInFlight     map[string]int       // pod uid -> CNI requests between invoke and return
-	passStartRep    map[string][2]string // pod name -> addresses the pod reported when the current reconcile began
-	passStartUID    map[string]string    // pod name -> uid, for the pods that existed when the current reconcile began
-	rtSeen          map[string]rtStamps  // pod uid -> newest CNI stamps the agent ever wrote to the runtime object
-	delComplete     map[string]bool      // pod uid -> the DEL of every sandbox of the pod returned success
-	addOK           map[string]bool      // pod uid -> an ADD for it succeeded: the agent holds a record of the pod
-	addFailed       map[string]bool      // pod uid -> an ADD for it failed (and was rolled back by the agent)
-	everRecorded    map[string]bool      // interface ids that appeared in a record that reached the API server
-	pending         []chan struct{}
+	pendingInstance    map[string]string
+	pendingSince       map[string]int       // reconcile number in which the interface was created
+	cniInFlight        map[string]int       // pod uid -> CNI DEL requests between invoke and return
+	addInFlight        map[string]int       // pod uid -> ADD requests between invoke and return
+	suspectReport      map[string]bool      // pod uid -> a teardown report was seen while only an ADD was in flight
+	passStartFullReads int                  // cloud.fullReads when the current reconcile began
+	passStartRep       map[string][2]string // pod name -> addresses the pod reported when the current reconcile began
+	passStartUID       map[string]string    // pod name -> uid, for the pods that existed when the current reconcile began
+	rtSeen             map[string]rtStamps  // pod uid -> newest CNI stamps the agent ever wrote to the runtime object
+	delComplete        map[string]bool      // pod uid -> the DEL of every sandbox of the pod returned success
+	addOK              map[string]bool      // pod uid -> an ADD for it succeeded: the agent holds a record of the pod
+	addFailed          map[string]bool      // pod uid -> an ADD for it failed (and was rolled back by the agent)
+	everRecorded       map[string]bool      // interface ids that appeared in a record that reached the API server
+	pending            []chan struct{}
 
 	// truth mirrors maintained from API writes
 	prevNode     *networkv1beta1.Node
@@ -226,7 +230,7 @@ func (ClusterWorld) Run(t *testing.T, scAny any, chooser simrt.Chooser, keepLog 
 	defer os.RemoveAll(dir)
 	return kit.Execute(t, chooser, keepLog, 600_000, func(run *kit.Run) {
 		w := &World{run: run, sc: sc, cfg: &sc.Cfg, dir: dir, faultIdx: map[string]int{}, faultPlan: map[string]string{},
-			pendingInstance: map[string]string{}, pendingSince: map[string]int{}, everRecorded: map[string]bool{}, cniInFlight: map[string]int{}, addFailed: map[string]bool{}, addOK: map[string]bool{}, delComplete: map[string]bool{}, rtSeen: map[string]rtStamps{}, delProcessed: map[string]bool{}, trigger: make(chan struct{}, 1)}
+			pendingInstance: map[string]string{}, pendingSince: map[string]int{}, everRecorded: map[string]bool{}, cniInFlight: map[string]int{}, addInFlight: map[string]int{}, suspectReport: map[string]bool{}, addFailed: map[string]bool{}, addOK: map[string]bool{}, delComplete: map[string]bool{}, rtSeen: map[string]rtStamps{}, delProcessed: map[string]bool{}, trigger: make(chan struct{}, 1)}
 		w.main()
 	})
 }
@@ -285,6 +289,7 @@ func (w *World) podObject(p *podState) *corev1.Pod {
 
 // snapshotPassStart notes what a reconcile that begins now can know about the pods.
 func (w *World) snapshotPassStart() {
+	w.passStartFullReads = w.cloud.fullReads
 	w.passStartUID, w.passStartRep = map[string]string{}, map[string][2]string{}
 	for _, p := range w.pods {
 		if !p.exists {
